@@ -8,6 +8,12 @@ TB = "Trusted: Go 1.23.5 stdlib, circl v1.3.7, go-hpke, x/crypto, rapid v1.3.0, 
 
 # id -> (technique, level text, design_ref, extra note)
 CLAIMS = {
+ "C16": ("rapid PBT with guard/spare-capacity buffers around every byte argument of a table of exported operations, plus stateful histories with held values",
+         "Every byte-slice argument of ~30 exported operations (Ed25519 and ECDSA forks, all decoders with valid and mutated input, request creation and finalization of all types, attester and issuer steps) is placed in guard(16)||arg||spare(0..64) with a drawn capacity; the whole buffer must be unchanged after the call and a second run with other noise must give the same (or an equally valid) result. Histories on one request state hold requests, encodings, responses and tokens (same memory) and re-check them after each of 2..8 further calls (finalize, finalize-corrupted, marshal, evaluate again, new request, verify).",
+         "DESIGN.md section 4 C16", "quicwire.Append* are exempt beyond len (they are given that capacity)."),
+ "C17": ("randomised concurrent plans executed under the Go race detector (-race, halt_on_error) with per-result sequential-equivalence checks",
+         "Plans (object kind, 2..16 goroutines, 1..5 operations each, start skew, GOMAXPROCS) are drawn with rapid, written to disk, and executed on a shared object that is freshly constructed inside the case (keys without any lazily computed parts); the race detector must stay silent and every result must be one a sequential call could produce. The detector is happens-before based, so an unsynchronised pair is reported whenever both accesses execute, not only when they collide in time.",
+         "DESIGN.md section 4 C17", "Schedules are sampled, not enumerated: a race in code no plan reaches concurrently, or an atomicity violation without a data race that still yields a valid result, is not found. A schedule-dependent failure cannot be shrunk; the plan file is the reproduction and is re-run 50 times on replay."),
  "C12": ("rapid PBT on four curves against an RFC 9380 hash-to-field reference written in the harness; algebraic laws (inverse, commutativity, one-at-a-time injectivity)",
          "Signing keys, blind-key byte strings (leading zeros, >= N, empty/0/1/N-1, far above N), contexts (nil/empty/0x00/long) and digests of length 0..128 are drawn on P-224/256/384/521. The blinded key must equal [r]pk with r recomputed from scratch (expand_message_xmd self-tested against RFC 9380 vectors) on crypto/elliptic; blind-key signatures must verify under it with this package and crypto/ecdsa and not under the unblinded key; unblind inverts, blindings commute, blind and context each bind the key.",
          "DESIGN.md section 4 C12", "Blind-key bytes are the minimal big-endian bytes of the blind scalar (the encoding the code and all callers use); the statement fixes no width."),
